@@ -61,18 +61,44 @@ def field_labels(e, inside=False, acc=None):
 KNOWN_SAME_VALUE_EQ = "C03-equals-same-value-shortcut"
 
 
-def self_compared_vars(e, acc=None):
-    """names x such that the program contains `x == x` or `x != x` (the same variable on both sides)"""
-    acc = acc if acc is not None else set()
+def var_aliases(e, acc=None):
+    """name -> name for bindings of the form `local n = m` (n is another name of m's value)"""
+    acc = acc if acc is not None else {}
     if isinstance(e, tuple):
-        if (len(e) == 4 and e[0] == "bin" and e[1] in ("==", "!=") and isinstance(e[2], tuple)
-                and e[2][:1] == ("var",) and e[2] == e[3]):
-            acc.add(e[2][1])
+        if e and e[0] in ("local", "obj"):
+            for n, b in e[1]:
+                if isinstance(b, tuple) and b[:1] == ("var",):
+                    acc[n] = b[1]
         for x in e[1:]:
-            self_compared_vars(x, acc)
+            var_aliases(x, acc)
     elif isinstance(e, list):
         for x in e:
-            self_compared_vars(x, acc)
+            var_aliases(x, acc)
+    return acc
+
+
+def self_compared_vars(e, alias=None, acc=None):
+    """names x such that the program contains `x == x` or `x != x`: the same variable on both sides,
+    or two variables one of which is bound directly to the other (`local b = a; a == b`)"""
+    alias = alias if alias is not None else var_aliases(e)
+    acc = acc if acc is not None else set()
+
+    def root(n):
+        seen = set()
+        while n in alias and n not in seen:
+            seen.add(n)
+            n = alias[n]
+        return n
+    if isinstance(e, tuple):
+        if (len(e) == 4 and e[0] == "bin" and e[1] in ("==", "!=") and isinstance(e[2], tuple)
+                and isinstance(e[3], tuple) and e[2][:1] == ("var",) and e[3][:1] == ("var",)
+                and root(e[2][1]) == root(e[3][1])):
+            acc.add(root(e[2][1]))
+        for x in e[1:]:
+            self_compared_vars(x, alias, acc)
+    elif isinstance(e, list):
+        for x in e:
+            self_compared_vars(x, alias, acc)
     return acc
 
 
